@@ -1,6 +1,7 @@
 package main
 
 import (
+	"fmt"
 	"strconv"
 	"strings"
 )
@@ -21,7 +22,197 @@ func (r *Runner) coreWorld() *World {
 		Stump: true, Pollard: true, MapFull: true, MapPart: true})
 }
 
+// substLeaf replaces every occurrence of the leaf term L<from> in a hash term by L<to>.
+func substLeaf(t string, from, to int) string {
+	f := "L" + strconv.Itoa(from)
+	var b strings.Builder
+	for i := 0; i < len(t); {
+		if strings.HasPrefix(t[i:], f) {
+			j := i + len(f)
+			if j == len(t) || t[j] < '0' || t[j] > '9' {
+				b.WriteString("L" + strconv.Itoa(to))
+				i = j
+				continue
+			}
+		}
+		b.WriteByte(t[i])
+		i++
+	}
+	return b.String()
+}
+
+// labOf is the relabelling in force after a step: the leaf of slot lab[0]
+// carries the hash term of slot lab[1] (spec/Core.tla, marks.lab).
+func labOf(st *Step) map[int]int {
+	if len(st.Lab) == 2 {
+		return map[int]int{st.Lab[0]: st.Lab[1]}
+	}
+	return nil
+}
+
+func substLab(t string, lab map[int]int) string {
+	for to, from := range lab {
+		t = substLeaf(t, to, from)
+	}
+	return t
+}
+
+// relabel rewrites every hash term of a line under the relabellings its steps
+// carry.  The reference semantics is written over slots; under a relabelling
+// <<to, from>> the leaf of slot `to' carries the hash L<from>, which is a
+// substitution on the free term algebra.  The fields that describe the state
+// before a block (previous roots, the deletion proof, the deleted side of the
+// update data) are read under the relabelling in force before the step,
+// everything else under the one in force after it.  Returns nil when no step
+// carries a relabelling.
+func relabel(l *Line) *Line {
+	steps := append(append([]Step{}, l.Hist...), l.Step)
+	any := false
+	for i := range steps {
+		any = any || len(steps[i].Lab) == 2
+	}
+	if !any {
+		return nil
+	}
+	sub := func(ts []string, lab map[int]int) []string {
+		if ts == nil || lab == nil {
+			return ts
+		}
+		out := make([]string, len(ts))
+		for i, t := range ts {
+			out[i] = substLab(t, lab)
+		}
+		return out
+	}
+	subPH := func(ps []PosHash, lab map[int]int) []PosHash {
+		if ps == nil || lab == nil {
+			return ps
+		}
+		out := append([]PosHash{}, ps...)
+		for i := range out {
+			out[i].Hash = substLab(out[i].Hash, lab)
+		}
+		return out
+	}
+	subPf := func(p *JProof, lab map[int]int) *JProof {
+		if p == nil || lab == nil {
+			return p
+		}
+		return &JProof{T: p.T, P: sub(p.P, lab)}
+	}
+	var pre map[int]int
+	ns := make([]Step, len(steps))
+	for i := range steps {
+		st := steps[i]
+		post := labOf(&st)
+		before := post
+		if st.A == "mod" {
+			before = pre
+		}
+		st.Pre = sub(st.Pre, before)
+		st.Pf = subPf(st.Pf, before)
+		st.Post = sub(st.Post, post)
+		if st.Upd != nil {
+			u := *st.Upd
+			u.Ndel = subPH(u.Ndel, before)
+			u.Nadd = subPH(u.Nadd, post)
+			st.Upd = &u
+		}
+		if st.Enc != nil {
+			e := *st.Enc
+			e.Pa, e.Pb, e.Psup = subPf(e.Pa, before), subPf(e.Pb, before), subPf(e.Psup, before)
+			st.Enc = &e
+		}
+		ns[i] = st
+		pre = post
+	}
+	out := *l
+	out.Hist = ns[:len(ns)-1]
+	out.Step = ns[len(ns)-1]
+	e := l.Expect
+	e.Roots = sub(e.Roots, pre)
+	e.Nodes = subPH(e.Nodes, pre)
+	e.Pf = subPf(e.Pf, pre)
+	out.Expect = e
+	return &out
+}
+
+// reuseVariant: the same behaviour in which the first leaf added by one block
+// carries the hash of a leaf that the same block deletes (spent and created
+// again in one block; the live leaves stay pairwise distinct) - the
+// relabelling of spec/Core.tla, derived here for behaviours that were
+// generated without it.  Only for pure block histories.
+func reuseVariant(l *Line) *Line {
+	steps := append(append([]Step{}, l.Hist...), l.Step)
+	n := 0
+	cand := []int{}
+	base := []int{}
+	for i := range steps {
+		if steps[i].A != "mod" || (steps[i].Enc != nil && steps[i].Enc.Kind != "canon") || len(steps[i].Lab) > 0 {
+			return nil
+		}
+		if len(steps[i].D) > 0 && steps[i].K > 0 {
+			cand = append(cand, i)
+			base = append(base, n)
+		}
+		n += steps[i].K
+	}
+	if len(cand) == 0 {
+		return nil
+	}
+	pick := int(lineHash(l.raw) % uint64(len(cand)))
+	b, s := cand[pick], base[pick]
+	for i := b; i < len(steps); i++ {
+		steps[i].Lab = []int{s, steps[b].D[0]}
+	}
+	out := *l
+	out.Hist = steps[:len(steps)-1]
+	out.Step = steps[len(steps)-1]
+	return &out
+}
+
+func labNote(l *Line) string {
+	steps := append(append([]Step{}, l.Hist...), l.Step)
+	for i := range steps {
+		if len(steps[i].Lab) == 2 {
+			return fmt.Sprintf(" [the leaf added into slot %d by step %d carries the hash of slot %d, deleted by the same block]", steps[i].Lab[0], i, steps[i].Lab[1])
+		}
+	}
+	return ""
+}
+
 func (r *Runner) replayCore(l *Line) lineResult {
+	if rl := relabel(l); rl != nil {
+		res := r.replayCoreWith(rl)
+		for i := range res.fails {
+			res.fails[i].What += labNote(rl)
+		}
+		if res.extra == nil {
+			res.extra = map[string]int{}
+		}
+		res.extra["relabelled_behaviours"]++
+		return res
+	}
+	res := r.replayCoreWith(l)
+	if optVal(r.extra, "reuse", "") == "1" && len(res.fails) == 0 {
+		if v := reuseVariant(l); v != nil {
+			rl := relabel(v)
+			r2 := r.replayCoreWith(rl)
+			for i := range r2.fails {
+				r2.fails[i].What += labNote(rl) + " (variant derived by the harness)"
+			}
+			res.fails = append(res.fails, r2.fails...)
+			res.calls += r2.calls
+			if res.extra == nil {
+				res.extra = map[string]int{}
+			}
+			res.extra["hash_reuse_variants"]++
+		}
+	}
+	return res
+}
+
+func (r *Runner) replayCoreWith(l *Line) lineResult {
 	if optVal(r.extra, "only", "") == "undo" {
 		// wide configurations: only behaviours that contain an undo are replayed
 		has := l.Step.A == "undo"
@@ -40,6 +231,7 @@ func (r *Runner) replayCore(l *Line) lineResult {
 	for i := range l.Hist {
 		w.stepI = i
 		w.histSoFar = l.Hist[:i]
+		w.reuse = labOf(&l.Hist[i])
 		w.coreStep(&l.Hist[i], nil)
 		if w.encRejected {
 			break
@@ -48,6 +240,7 @@ func (r *Runner) replayCore(l *Line) lineResult {
 	if !w.encRejected {
 		w.stepI = len(l.Hist)
 		w.histSoFar = l.Hist
+		w.reuse = labOf(&l.Step)
 		w.coreStep(&l.Step, &l.Expect)
 	}
 	if w.encRejected {
@@ -74,7 +267,10 @@ func (r *Runner) replayCore(l *Line) lineResult {
 func (w *World) coreStep(st *Step, exp *Expect) {
 	switch st.A {
 	case "mod":
-		if st.Enc != nil && st.Enc.Kind != "canon" {
+		if (st.Enc != nil && st.Enc.Kind != "canon") || len(st.Lab) == 2 {
+			// C05 speaks about every accepted block; it is judged on the
+			// behaviours that go beyond what C01 covers: non-canonical
+			// encodings and relabelled leaves
 			w.ctx["C05"] = true
 		}
 		w.applyMod(st)
